@@ -270,3 +270,33 @@ Theorem C04_source_tests_known :
   tests_known (net_send_command_code ++ net_send_commands_code ++ net_send_configs_code)%list net_send_known = true.
 Proof. split; [exact process_acquire_priv_tests_known | exact net_send_tests_known]. Qed.
 Print Assumptions C04_source_tests_known.
+
+(* AcquirePriv AS THE SOURCE HAS IT ON THIS RUN: an unknown target is refused with a privilege error
+   before anything is sent; one round of the loop reads the prompt, asks processAcquirePriv, returns
+   nil when no action is needed, makes the escalate / de-escalate step, passes every error on as it
+   is, counts the step and gives up with a privilege error beyond 2 * levels steps (all 96
+   combinations evaluated; every test known); [C04_acquire_loop_step] is the model's round. *)
+From Scrapli Require Import AcquireSrc.
+Theorem C04_acquire_priv_is_source : aq_table_ok = true /\ tests_known acquire_priv_code acquire_priv_known = true.
+Proof. exact acquire_priv_is_source. Qed.
+
+Theorem C04_acquire_loop_step : forall f net cached target count,
+  acquire_loop (S f) net cached target count
+  = Channel.bind (get_prompt (n_chan net)) (fun prompt =>
+      match process_acquire net cached target prompt with
+      | PAErr => Fail EPrivilege
+      | PAPanic => Fail EOperation
+      | PAOk ANone cur => Note TAG_CUR cur (Ret cur)
+      | PAOk a cur =>
+          Note TAG_CUR cur
+            (Channel.bind (match a with
+                   | AEscalate next => escalate net next
+                   | ADeescalate c => deescalate net c
+                   | ANone => Ret []
+                   end)
+                  (fun _ => if Nat.ltb (2 * length (n_levels net)) (S count) then Fail EPrivilege
+                            else acquire_loop f net cur target (S count)))
+      end).
+Proof. exact acquire_loop_step. Qed.
+Print Assumptions C04_acquire_priv_is_source.
+Print Assumptions C04_acquire_loop_step.
